@@ -56,6 +56,31 @@ Theorem C06_excess_gone : forall cfg ops, hist_ok ops -> thresholds_ok cfg ->
   capacity_exceeded cfg (do_eviction cfg (run_pool cfg ops)) = false.
 Proof. intros cfg ops H HT. apply do_eviction_post; [apply run_pool_inv; exact H|exact HT]. Qed.
 
+(** "all threshold/batch-size configurations accepted by NewTxCache": every configuration that config.verify() accepts
+    (TxTypes.verify_config, the transcription run by the model's constructor and compared with NewTxCache's verdict on
+    boundary configurations) satisfies the hypotheses on the configuration made by the theorems above *)
+Theorem C06_accepted_configurations : forall ev numChunks numBytes numBytesPerSender count countPerSender batch,
+  verify_config numChunks numBytes numBytesPerSender count countPerSender batch = true ->
+  let cfg := mkConfig ev (Z.of_N numBytes) (Z.of_N numBytesPerSender) (Z.of_N count) (Z.of_N countPerSender) (N.to_nat batch) in
+  thresholds_ok cfg /\ 0 <= countPerSenderThreshold cfg /\ 0 <= numBytesPerSenderThreshold cfg /\
+  4 <= countThreshold cfg /\ 4 <= numBytesThreshold cfg /\ 1 <= countPerSenderThreshold cfg /\ (1 <= numChunks <= 128)%N.
+Proof.
+  intros ev nc nb nbs c cs b H. unfold verify_config in H. cbv zeta. unfold thresholds_ok. cbn [numBytesThreshold countThreshold
+    numItemsToPreemptivelyEvict countPerSenderThreshold numBytesPerSenderThreshold].
+  repeat match type of H with _ && _ = true => apply andb_prop in H; let H2 := fresh "H" in destruct H as (H & H2) end.
+  repeat match goal with X : negb (_ || _) = true |- _ => rewrite negb_orb in X; apply andb_prop in X; let X2 := fresh "X" in destruct X as (X & X2) end.
+  repeat match goal with X : negb (_ <? _)%N = true |- _ => apply negb_true_iff, N.ltb_ge in X end.
+  lia.
+Qed.
+
+(** the constructor's verdict on boundary values (3 / 4 items, 0 / 1 batch, 128 / 129 chunks, 32 MB / 32 MB + 1) *)
+Example C06_verify_boundaries :
+  verify_config 1 4 1 4 1 1 = true /\ verify_config 128 1073741824 33554432 4 1 1 = true /\
+  verify_config 0 4 1 4 1 1 = false /\ verify_config 129 4 1 4 1 1 = false /\ verify_config 1 3 1 4 1 1 = false /\
+  verify_config 1 1073741825 1 4 1 1 = false /\ verify_config 1 4 0 4 1 1 = false /\ verify_config 1 4 33554433 4 1 1 = false /\
+  verify_config 1 4 1 3 1 1 = false /\ verify_config 1 4 1 4 0 1 = false /\ verify_config 1 4 1 4 1 0 = false.
+Proof. vm_compute. repeat split. Qed.
+
 (** eviction disabled: AddTx touches no other sender (no transaction is dropped for pool-wide reasons) *)
 Theorem C06_no_eviction_when_disabled : forall cfg p t, evictionEnabled cfg = false ->
   Inv p -> agrees p t -> tx_wf t ->
@@ -79,3 +104,4 @@ Print Assumptions C06_per_sender_bytes_refuted.
 Print Assumptions C06_pool_wide.
 Print Assumptions C06_excess_gone.
 Print Assumptions C06_no_eviction_when_disabled.
+Print Assumptions C06_accepted_configurations.
